@@ -1,9 +1,11 @@
 //go:build verif
 
 // Harness lfq decides C13: the lock-free task queue as a linearizable FIFO queue.
-//   (i)  many short histories recorded at the call boundary, checked by porcupine (tools/vchk)
-//   (ii) long stress histories decided by polynomial checks that unique values make sound
-//   (iii) Length/IsEmpty at quiescent points
+//
+//	(i)  many short histories recorded at the call boundary, checked by porcupine (tools/vchk)
+//	(ii) long stress histories decided by polynomial checks that unique values make sound
+//	(iii) Length/IsEmpty at quiescent points
+//
 // The queue source is point-instrumented (flavour "points"): every atomic load / CAS / add is
 // preceded by a yield point that perturbs the schedule.
 package main
